@@ -8,7 +8,11 @@ tie     : correspondence — harness/c16.cpp runs GEOSDelaunayTriangulation_r / 
           GEOSVoronoiDiagram_r on generated grid inputs and ships input bits + output bits; the Lean driver
           drv_c16 runs the proved-sound checkers on them.  The expectation is `ok` on every line.
 Because the checker evaluates the property's own conditions exactly, any `FAIL` line is a concrete failing
-input for the property (not a model mismatch)."""
+input for the property (not a model mismatch).
+translator: translate/specs/tri_predicates.py regenerates TrianglePredicate / Vertex / TriDelaunayImprover decision functions into
+          lean/GeosModel/Generated/TriPredicates.lean on every run; lean/GeosModel/Props/C16Gen.lean proves them equal to
+          Kernel.det / Tri.inCircleLoc / Tri.robustInCircleLoc / Tri.flipInCircle / Tri.improverDelaunay; stream `predicates`
+          calls the same C++ functions on small-integer quadruples (exact double arithmetic) against those models."""
 import os, json, math, re
 import verif
 from verif import log
@@ -194,7 +198,9 @@ def run(ctx):
         "(GEOSisValid is used only as a safety net to skip generator mistakes)",
         "doubles -> exact integers via F64.scaleAll (bit-level decode); harness generators and the C++ glue are trusted",
     ])
-    proved = ctx.prove(PROPS, extra_targets=(DRV,))
+    # translator tie: the in-circle / orientation decision functions are regenerated from the current C++ and proved equal to
+    # Kernel.det / Model/Tri/Predicates.lean
+    proved = ctx.prove_generated([("tri_predicates", "GeosModel/Generated/TriPredicates.lean", "GeosModel.Props.C16Gen")], PROPS, extra_targets=(DRV,))
     ok, out = verif.build_geos("rel")
     if not ok:
         ctx.violation("GEOS does not build with -DGEOS_VERIF", {"kind": "build-failure", "log": out[-3000:]}, nofail=True)
@@ -221,6 +227,29 @@ def run(ctx):
                       {"kind": "failing-input", "stream": "reuse", "case": case, "impl": exp, "model": got,
                        "replay_cmd": "%s reuse-replay: regenerate with `%s reuse %d %d <out>`" % (exe, exe, ctx.seed, (6000 if ctx.tier == "quick" else 300000))},
                       signature={"stream": "reuse", "clause": " ".join(exp.split()[:2])})
+    # ---- the decision functions themselves (the ones the translator tie regenerates), on quadruples where double arithmetic is exact
+    npred = 20000 if ctx.tier == "quick" else 400000
+    rp = verif.run_stream(exe, "predicates", ctx.seed, npred, ctx.work, shards=min(verif.NPROC, 8), driver_exe=DRV)
+    corr["predicates"] = {"cases": rp["cases"], "disagreements": len(rp["disagreements"]) + rp.get("more_disagreements", 0), "distribution": rp["stats"]}
+    ctx.cov["samples"] += [{"case": s_["case"][:300], "impl": s_["impl"], "model": s_["model"]} for s_ in rp.get("samples", [])[:1]]
+    if rp["error"]:
+        ctx.violation("stream predicates could not run: " + rp["error"], {"kind": "tie-broken", "correspondence": "predicates", "detail": rp["error"][:2000]}, nofail=True)
+    elif rp["disagreements"]:
+        names = ["TrianglePredicate::isInCircleRobust", "TrianglePredicate::isInCircleNormalized", "TrianglePredicate::isInCircleNonRobust",
+                 "Vertex::isCCW", "Vertex::rightOf", "Vertex::leftOf", "Vertex::isInCircle"]
+        seenf = set()
+        for idx, case, exp, got in rp["disagreements"]:
+            e_, g_ = exp.split(), got.split()
+            diff = [names[i] for i in range(min(len(e_), len(g_), 7)) if e_[i] != g_[i]] or ["(line shape)"]
+            if diff[0] in seenf:
+                continue
+            seenf.add(diff[0])
+            # a decision function answers differently from its exact model on an input where its double arithmetic is exact.  The input
+            # is an input of that function, not of the property: the delaunay / cdt streams below look for the triangulation it spoils.
+            ctx.violation("%s answers differently from its exact model (Model/Tri/Predicates.lean) on a small-integer quadruple where double "
+                          "arithmetic is exact: implementation %s, model %s (order: %s)" % (", ".join(diff), exp, got, " ".join(n.split("::")[-1] for n in names)),
+                          {"kind": "tie-broken", "correspondence": "predicates", "stream": "predicates", "case": case, "impl": exp, "model": got,
+                           "functions": diff, "replay_cmd": "bin/check C16 --replay <this file>"}, nofail=True)
     # ---- regression corpus first: hand-written boundary cases + the shrunk witness of each finding
     cpath = os.path.join(verif.ROOT, "corpus", "C16.cases")
     if os.path.exists(cpath):
@@ -336,6 +365,24 @@ def replay(ctx, path):
     ok, out = verif.build_geos("rel")
     exe, out = verif.build_harness("c16")
     verif.lake_build([DRV])
+    if exe and r.get("stream") == "predicates" and "case" in r:
+        work = os.path.join(verif.BUILD, "work")
+        os.makedirs(work, exist_ok=True)
+        qf = os.path.join(work, "c16-pred-%d.txt" % os.getpid())
+        with open(qf, "w") as f:
+            f.write(r["case"] + "\n")
+        rc, out = verif.sh([exe, "predicates-eval", qf], timeout=60)
+        impl = (out.strip().split("\n") or [""])[-1]
+        rc2, got = verif.run_driver_lines("predicates", [r["case"]], driver_exe=DRV)
+        model = ([g for g in got if g != ""] or [""])[0]
+        print("stream : predicates")
+        print("case   :", r["case"])
+        print("impl   :", impl, " (isInCircleRobust isInCircleNormalized isInCircleNonRobust isCCW rightOf leftOf isInCircle)")
+        print("model  :", model)
+        if impl != model:
+            print("VIOLATION property=C16 replay=%s" % path)
+            return 1
+        return 0
     if not exe or "case" not in r or "stream" not in r:
         print("replay file has no case to run (kind=%s)" % r.get("kind"))
         return 1 if r.get("kind") in ("proof-broken", "tie-broken", "build-failure") else 0
